@@ -56,8 +56,11 @@ class TimeActiveDecorator(TriggerHandlerDecorator, AutoKwargsDecorator):
             if not await trigger.TrigTime.timer_active_check(self.args, now, self.dm.startup_time):
                 return False
 
-        self.last_trig_time = time.monotonic()
         return True
+
+    def dispatch_accepted(self, data: DispatchData) -> None:
+        """Remember when the trigger was last accepted, for hold_off."""
+        self.last_trig_time = time.monotonic()
 
 
 class TimeTriggerDecorator(TriggerDecorator):
